@@ -175,6 +175,9 @@ func mapFormToStruct(val reflect.Value, form map[string][]string) error {
 
 		numElems := len(inputValue)
 		if structFieldKind == reflect.Array && numElems > 0 {
+			if numElems > structField.Len() {
+				return fmt.Errorf("form codec: %d values for the array field %s of length %d", numElems, typeField.Name, structField.Len())
+			}
 			for i := 0; i < numElems; i++ {
 				arrayOf := structField.Type().Elem().Kind()
 				if err := setWithProperType(arrayOf, inputValue[i], structField.Index(i)); err != nil {
